@@ -116,7 +116,7 @@ class Interp:
                 if n["n"] not in self.members:
                     ty = n.get("t") or ""
                     if "tensor_t<" in ty and ty.rstrip(" &").endswith(", 1>"):
-                        self.members[n["n"]] = [sym("%s%d" % (n["n"], i)) for i in range(self.n)]
+                        self.members[n["n"]] = [sym("%s%d" % (n["n"], i)) for i in range(getattr(self, "member_len", self.n))]
                     elif ty.replace("const ", "").strip() in ("double", "float", "long", "int"):
                         self.members[n["n"]] = sym(n["n"])
                     else:
